@@ -95,16 +95,11 @@ def str_method_format(cls, want_kind):
 
 
 def gen_checks():
-    mod = parse('oslo_policy/_checks.py')
-    out = HEADER % 'oslo_policy/_checks.py, setup.cfg'
-
-    # ---- printers
-    f_false = str_method_format(find_class(mod, 'FalseCheck'), 'const')
-    f_true = str_method_format(find_class(mod, 'TrueCheck'), 'const')
-    f_leaf = str_method_format(find_class(mod, 'Check'), 'leaf')
-    f_not = str_method_format(find_class(mod, 'NotCheck'), 'not')
-    f_and = str_method_format(find_class(mod, 'AndCheck'), 'join')
-    f_or = str_method_format(find_class(mod, 'OrCheck'), 'join')
+    """printer formats, registered kinds, handler classes, reply test: read off the imported
+    implementation by observation (gen/probe.py); entry points from setup.cfg"""
+    import probe
+    out = HEADER % 'oslo_policy/_checks.py, _external.py (imported and probed), setup.cfg'
+    f_false, f_true, f_leaf, f_not, f_and, f_or = probe.printer_formats()
     out += 'Definition fmt_false : str := %s.\n' % coq_str(f_false)
     out += 'Definition fmt_true : str := %s.\n' % coq_str(f_true)
     out += 'Definition fmt_leaf : str * str * str := (%s, %s, %s).\n' % tuple(map(coq_str, f_leaf))
@@ -112,26 +107,10 @@ def gen_checks():
     out += 'Definition fmt_and : str * str * str := (%s, %s, %s).\n' % tuple(map(coq_str, f_and))
     out += 'Definition fmt_or : str * str * str := (%s, %s, %s).\n\n' % tuple(map(coq_str, f_or))
 
-    # ---- registered kinds
-    reg = []
-    for n in mod.body:
-        if isinstance(n, ast.ClassDef):
-            for dec in n.decorator_list:
-                if isinstance(dec, ast.Call) and ast.unparse(dec.func) == 'register':
-                    if len(dec.args) != 1 or not isinstance(dec.args[0], ast.Constant):
-                        raise Refuse('register() with a non-literal name')
-                    reg.append((dec.args[0].value, n.name))
-    known = {'RuleCheck': 'KRule', 'RoleCheck': 'KRole', 'GenericCheck': 'KGeneric'}
-    for nm, cls in reg:
-        if cls not in known:
-            raise Refuse('unknown registered check class %s' % cls)
-        if nm is not None and not isinstance(nm, str):
-            raise Refuse('register() name is neither a string nor None')
-    out += '(* @register(name) class ... ;  None is the fallback handler *)\n'
+    reg = probe.registered_kinds()
+    out += '(* _checks.registered_checks ;  None is the fallback handler *)\n'
     out += 'Definition registered : list (option str * kcls) := %s.\n' % coq_list(
-        ['(%s, %s)' % ('None' if nm is None else 'Some %s' % coq_str(nm), known[cls])
-         for nm, cls in reg])
-    # entry points (stevedore extension checks take precedence over registered ones)
+        ['(%s, %s)' % ('None' if nm is None else 'Some %s' % coq_str(nm), c) for nm, c in reg])
     cp = configparser.ConfigParser()
     cp.read(os.path.join(REPO, 'setup.cfg'))
     eps = []
@@ -148,57 +127,12 @@ def gen_checks():
     out += 'Definition extensions : list (str * kcls) := %s.\n\n' % coq_list(
         ['(%s, %s)' % (coq_str(k), c) for k, c in eps])
 
-    # ---- except clauses
-    def one_handler(fn, idx, what):
-        ts = tries_of(fn)
-        if len(ts) <= idx:
-            raise Refuse('%s: expected try statement #%d' % (what, idx))
-        t = ts[idx]
-        if len(t.handlers) != 1 or t.orelse or t.finalbody:
-            raise Refuse('%s: try statement has an unknown shape' % what)
-        return handler_classes(t.handlers[0]), t
+    out += '(* HttpCheck/HttpsCheck: body stripped of double quotes at both ENDS must equal True; Timeout -> RuntimeError *)\n'
+    out += 'Definition reply_test_known : bool := %s.\n\n' % ('true' if probe.reply_test_known() else 'false')
 
-    rulec = find_func(find_class(mod, 'RuleCheck').body, '__call__')
-    rolec = find_func(find_class(mod, 'RoleCheck').body, '__call__')
-    genc = find_class(mod, 'GenericCheck')
-    gcall = find_func(genc.body, '__call__')
-    gfind = find_func(genc.body, '_find_in_dict')
-    if len(tries_of(rulec)) != 1 or len(tries_of(rolec)) != 1 or len(tries_of(gcall)) != 2 \
-            or len(tries_of(gfind)) != 1:
-        raise Refuse('number of try statements in the check classes changed')
-    h_rule, t = one_handler(rulec, 0, 'RuleCheck.__call__')
-    if ast.unparse(t.handlers[0].body[-1]) != 'return False':
-        raise Refuse('RuleCheck handler does not return False')
-    h_role, t = one_handler(rolec, 0, 'RoleCheck.__call__')
-    if ast.unparse(t.handlers[0].body[-1]) != 'return False' or \
-            ast.unparse(t.body[0]) != 'match = self.match % target':
-        raise Refuse('RoleCheck substitution handler has an unknown shape')
-    h_gsub, t = one_handler(gcall, 0, 'GenericCheck.__call__ (substitution)')
-    if ast.unparse(t.handlers[0].body[-1]) != 'return False' or \
-            ast.unparse(t.body[0]) != 'match = self.match % target':
-        raise Refuse('GenericCheck substitution handler has an unknown shape')
-    h_glit, t = one_handler(gcall, 1, 'GenericCheck.__call__ (literal)')
-    if ast.unparse(t.handlers[0].body[-1]) != 'pass' or \
-            'ast.literal_eval(self.kind)' not in ast.unparse(t.body[0]):
-        raise Refuse('GenericCheck literal handler has an unknown shape')
-    h_find, t = one_handler(gfind, 0, 'GenericCheck._find_in_dict')
-    if ast.unparse(t.handlers[0].body[-1]) != 'return False' or \
-            ast.unparse(t.body[0]) != 'test_value = test_value[key]':
-        raise Refuse('_find_in_dict handler has an unknown shape')
-    # ---- _external.py: the reply test and the Timeout conversion
-    emod = parse('oslo_policy/_external.py')
-    ok_reply = True
-    for cname in ('HttpCheck', 'HttpsCheck'):
-        call = ast.unparse(find_func(find_class(emod, cname).body, '__call__'))
-        if call.count("return r.text.lstrip('\"').rstrip('\"') == 'True'") != 1 or \
-                "except Timeout:\n        raise RuntimeError('Timeout in REST API call')" not in call:
-            ok_reply = False
-    out += '(* HttpCheck/HttpsCheck: body stripped of double quotes at both ENDS must equal True *)\n'
-    out += 'Definition reply_test_known : bool := %s.\n\n' % ('true' if ok_reply else 'false')
-
-    out += '(* classes named in the except clauses *)\n'
-    for nm, h in (('catch_rule', h_rule), ('catch_role_subst', h_role),
-                  ('catch_generic_subst', h_gsub), ('catch_generic_literal', h_glit),
-                  ('catch_find_in_dict', h_find)):
-        out += 'Definition %s : list xclass := %s.\n' % (nm, coq_list(h))
+    out += '(* exception classes each handler turns into a deny (observed by injection) *)\n'
+    hs = probe.handler_classes()
+    for nm in ('catch_rule', 'catch_role_subst', 'catch_generic_subst', 'catch_generic_literal',
+               'catch_find_in_dict'):
+        out += 'Definition %s : list xclass := %s.\n' % (nm, coq_list(hs[nm]))
     return out
